@@ -25,6 +25,7 @@ CLI_VECTORS = [
     ["--clock", "ucln", "--coalescent", "constant"],
     ["--clock", "strict", "--birth-death", "constant"],
     ["--clock", "strict", "--birth-death", "bdsk", "--grid", "3"],
+    ["--clock", "strict", "--birth-death", "bdsk", "--grid", "3", "@origin_is_root_edge"],
     ["--clock", "strict", "--coalescent", "constant", "--use_tip_states"],
     ["--clock", "strict", "--coalescent", "constant", "--include_jacobian"],
     ["-m", "JC69"],
@@ -107,10 +108,15 @@ def _build(recipe):
 
 def _cli(recipe):
     sub = recipe["sub"]
-    args = [sub] + scenes.tiny_args(dated="--clock" in recipe["args"]) + list(recipe["args"]) + ["--stem", scenes.RUN + "/x"]
+    tweaks = [a for a in recipe["args"] if a.startswith("@")]
+    args = [sub] + scenes.tiny_args(dated="--clock" in recipe["args"]) + [a for a in recipe["args"] if not a.startswith("@")] + ["--stem", scenes.RUN + "/x"]
     if sub != "map":
         args += ["--iter", "5"]
     full = scenes.cli(args)
+    if "@origin_is_root_edge" in tweaks:
+        # an option of the model class that no CLI flag sets: the origin is the branch above the root
+        for d in scenes.find_type(full, "BDSKModel"):
+            d["origin_is_root_edge"] = True
     spec = freshlib.model_part(full)
     if sub == "advi":
         opt = [e for e in full if e.get("type") == "Optimizer"][0]
@@ -299,9 +305,11 @@ def _timetree():
         {"id": "clock", "type": "StrictClockModel", "tree_model": "tree", "rate": P("rate", [0.01])},
         {"id": "poisson", "type": "PoissonTreeLikelihood", "tree_model": "tree", "edge_lengths": [0, 1, 0, 2, 1, 0, 1, 3], "branch_model": "clock"},
         {"id": "ctmc", "type": "CTMCScale", "x": "rate", "tree_model": "tree"},
-        scenes.joint("joint", ["coal", "coal.int", "expcoal", "poisson", "ctmc"]),
+        # time-aware GMRF (skyride smoothing weighted by the interval mid-points) on a tree given by node heights
+        {"id": "gmrf.time", "type": "GMRF", "x": P("ta.field", [0.3, -0.2, 0.5, 0.1]), "precision": P("ta.precision", [1.5]), "tree_model": "tree"},
+        scenes.joint("joint", ["coal", "coal.int", "expcoal", "poisson", "ctmc", "gmrf.time"]),
     ]
-    dom = {"heights": "ordered", "theta": "positive", "theta2": "positive", "growth": "real", "rate": "positive"}
+    dom = {"heights": "ordered", "theta": "positive", "theta2": "positive", "growth": "real", "rate": "positive", "ta.field": "real", "ta.precision": "positive"}
     return spec, dom
 
 
